@@ -122,6 +122,14 @@ class CallMixin:
                 if isinstance(v, VOpaque):
                     return VBool(models.valid_utf8(v.t))
                 return VBool(True)
+            if nm == 'joined':
+                v = self.res(self.ev(node.args[0]))
+                c = self.cell(v)
+                if c.seq is None:
+                    return VStr('')
+                if c.joined is None:
+                    self.limit('joined() of a list that is not append-only built', node)
+                return VStr(c.joined)
             if nm == 'calls':
                 return VPtr(0)
             if nm == 'yielded':
@@ -691,6 +699,8 @@ class CallMixin:
                         raise EngineLimit(f'parameter {nm!r} of {contract.key} has no declared sort')
                 for g, s in contract.ghosts.items():
                     env[g] = self.fresh(s, g)
+                for g, e in contract.ghost_init.items():
+                    env[g] = self.eval_spec(e)
                 pr.pins = []
                 for name in contract.consts:
                     sym = self.global_value(fi.module, name)
